@@ -39,7 +39,8 @@ F = [
  ("C17","C17-one-compaction-round-per-wakeup","fixed","692a107","level task ran one round per flush; with L1 outranking an L0 at the write-stall limit the task went idle, writers stayed stalled and nothing woke it again"),
  ("C12","C12-damaged-first-header","fixed","183d420","the record-type byte of a segment's first record header altered: open in the repairing recovery mode failed with 'Invalid Record Type' (compression detection ran before recovery) instead of keeping the valid prefix"),
  ("C12","C12-compression-record-unchecked","fixed","2920b0d","compressed segment: the reader did not verify the checksum of the compression-type record; one flipped payload bit made every later record read back as bytes never appended"),
- ("C12","C12-torn-tail-behind-compression-header","fixed","3bd6d37","compressed segment cut inside its first record: the torn tail behind the compression header was kept on reopen, records appended in that session were unreachable (found by the append-after-alteration sweep, replay kept as harness/scenarios-independent generated case)"),
+ ("C12","C12-torn-tail-behind-compression-header","fixed","3bd6d37","compressed segment cut inside its first record: the torn tail behind the compression header was kept on reopen, records appended in that session were unreachable"),
+ ("C18","C18-separator-overflow-on-leaf-redistribution","fixed","2d51b9f","keys longer than the inline limit (~1 KB): when leaves redistribute, the parent separator was replaced but its overflow chain kept - the new key was reconstructed from the wrong chain ('Reconstructed key size .. doesn't match expected ..' on later loads and after reopen) or the chain was leaked (page neither reachable nor free)"),
  ("C11","C11-vlog-rotation-inside-flush-not-synced","fixed","f424741","a value-log file rotated away inside a flush was never fsynced; after power loss the installed table pointed at missing bytes"),
 ]
 out = {"_comment": "Committed; never written at run time. status=open: the directed scenario with the same id (harness/src/scenarios.rs or harness/src/props/crash.rs) still fails on the tree; the check prints KNOWN-FINDING for it and the generators mask exactly that pattern. status=fixed: repaired by the named fix: commit in /repo; suppresses nothing - the scenario stays in the check as a regression monitor and reports VIOLATION if the behaviour returns.",
